@@ -18,6 +18,8 @@ BROKEN = {
     'dsa': r'dss|(^|[^a-z])dsa',
     'group1': r'group1-|(^|[^0-9])1024([^0-9]|$)',
     'nist-curve': r'nist[pkbt][0-9]',
+    # the same curves named by object identifier (P-192, P-256, P-224, P-384, P-521 and the NIST binary curves), as in ecdh-sha2-<oid>
+    'nist-curve-oid': r'(^|-)(1\.2\.840\.10045\.3\.1\.(1|7)|1\.3\.132\.0\.(1|16|26|27|33|34|35|36|37|38))($|-|@)',
     'blowfish': r'blowfish',
     'cast': r'cast128',
     'idea': r'idea',
@@ -89,6 +91,22 @@ def eval_case(case):
         if r.exc:
             fails.append(['probe-of-table-like-name-crashes:%s' % drive.crash_sig(r), r.brief()])
         return mkres(case, nt=True, classes=['probe-table-runtime'], fails=fails)
+    if k == 'runtime-table':
+        # the working copy of the table after a standard audit (probes answered): measuring sizes may add notes, it may not
+        # leave an entry of a broken primitive without any failure
+        from ssh_audit.ssh2_kexdb import SSH2_KexDB
+        net = fakenet.FakeNet()
+        net.add('h', 22, fakenet.Server(case['spec']))
+        r = drive.run_cli(['-n', '-j', '--skip-rate-test', 'h'], net)
+        work = SSH2_KexDB.get_db()
+        for cat, d in work.items():
+            for name, e in d.items():
+                if any(re.search(rx, name) for rx in BROKEN.values()) and not (len(e) > 1 and len(e[1]) > 0):
+                    if len(dbs['ssh2'][cat][name]) > 1 and dbs['ssh2'][cat][name][1]:
+                        fails.append(['broken-primitive-loses-its-failure-during-an-audit', '%s %s after auditing %r: %r' % (cat, name, {kk: case['spec'][kk] for kk in ('kex', 'key', 'moduli')}, e)])
+        if r.exc:
+            fails.append([drive.crash_sig(r), r.brief()])
+        return mkres(case, nt=True, classes=['runtime-table'], fails=fails)
     if k == 'policy-static':
         from ssh_audit.builtin_policies import BUILTIN_POLICIES
         pol = BUILTIN_POLICIES[case['policy']]
@@ -183,6 +201,15 @@ def run(ctx):
         for variant in ('%s-cert-v02@openssh.com' % stem, '%s-cert-v00@openssh.com' % stem, '%s-cert-v01@example.com' % stem, stem + '@openssh.com'):
             rt.append({'kind': 'probe-table-runtime', 'keys': ['ssh-ed25519', variant]})
     ctx.map(rt)
+    rtt = []
+    for moduli in ([1024], [2048], [3072], [4096], [2048, 4096]):
+        for bits in (1024, 2048, 4096):
+            for style in ('roundup', 'openssh'):
+                for banner in ('SSH-2.0-OpenSSH_8.0', 'SSH-2.0-dropbear_2020.81'):
+                    rtt.append({'kind': 'runtime-table', 'spec': {'banner': banner, 'kex': ['diffie-hellman-group14-sha1', 'diffie-hellman-group-exchange-sha1', 'diffie-hellman-group-exchange-sha256', 'diffie-hellman-group1-sha1'], 'key': ['ssh-rsa', 'ssh-dss', 'ecdsa-sha2-nistp256', 'ssh-rsa-cert-v01@openssh.com'],
+                                'enc': ['3des-cbc', 'arcfour', 'aes128-ctr'], 'mac': ['hmac-md5', 'hmac-sha1', 'hmac-sha1-etm@openssh.com'], 'moduli': moduli, 'gex_style': style,
+                                'hostkeys': dict({n: {'t': 'rsa', 'bits': bits} for n in ('ssh-rsa', 'rsa-sha2-256', 'rsa-sha2-512')}, **{'ssh-dss': {'t': 'dss'}, 'ecdsa-sha2-nistp256': {'t': 'ecdsa', 'curve': 'nistp256'}, 'ssh-rsa-cert-v01@openssh.com': {'t': 'cert', 'kind': 'ssh-rsa-cert-v01@openssh.com', 'bits': bits, 'ca': {'t': 'rsa', 'bits': 4096}}})}})
+    ctx.map(rtt)
     ctx.map(audits)
     ctx.exhaustive = True
     ctx.note(db_entries=len(entries), cross_references=len(refs), builtin_policies=len(pols), policy_audits=len(audits))
